@@ -252,6 +252,26 @@ def check_sqrt(run, cx, cfg):
                   sample={'bias': hex(ONE[w]), 'type': ty} if cfg == 'nostd' else None)
 
 
+def check_precision(run, cx, cfg):
+    """Precision discipline: every arithmetic step of the detector is performed in the frame's own float companion
+    (a generic type in these bodies).  Fixed-width f32 may appear only as the exact cast of the window length; an
+    f32 *operation* (e.g. a reciprocal formed in f32 and widened) would leak 2^-24 relative error into f64 frames,
+    which the polynomial comparison cannot see."""
+    n = 0
+    for b in sorted(cx.facts.bodies_in('dasp_rms'), key=lambda b: b['path']):
+        n += 1
+        ar = fixed_float_arith(cx.facts, b)
+        run.check(not ar, 'rms.precision', b['path'], cfg,
+                  'performs %s in fixed-width %s (line %s): the mean square must be computed in the frame\'s float companion, not through a narrower intermediate' % (
+                      ar[0][0], ar[0][1], ar[0][2]) if ar else '', where=where(b))
+    run.floor('rms.precision', 'dasp_rms bodies (%s)' % cfg, n, 15)
+    # positive control: the scanner sees fixed-width float arithmetic where it exists (calc_gain: -1.0 / n in f32)
+    ctl = cx.body('dasp_envelope::detect::calc_gain')
+    if ctl is not None:
+        run.check(bool(fixed_float_arith(cx.facts, ctl)), 'rms.precision', 'positive-control:dasp_envelope::detect::calc_gain', cfg,
+                  'the scanner no longer sees the f32 division in calc_gain: it may be blind')
+
+
 def run(run, tier, loadcfg):
     run.rule_text = 'one instance per (function x rule x configuration: std-debug and nostd)'
     run.explanation = __doc__
@@ -266,5 +286,6 @@ def run(run, tier, loadcfg):
         check_sqrt_placement(run, cx, cfg)
         check_reset_new(run, cx, cfg)
         check_sqrt(run, cx, cfg)
+        check_precision(run, cx, cfg)
         from rules import C06
         C06.check_used(run, cx, cfg, [b for b in fx_.bodies.values() if b['crate'] == 'dasp_rms'], 5)
